@@ -1283,6 +1283,21 @@ def cmdcluster_family(seed, n, maxlen=2):
     return out
 
 
+def hidpos_family(seed, maxlen=3):
+    """positional items under `hide()`: hiding changes the help, never what `--` means for the item"""
+    out = []
+    shapes = [(("many", "non_strict"), ("opt", "strict")), (("opt", "non_strict"), ("many", "strict")),
+              (("many", "non_strict"), ("one", "strict")), (("many", "any"), None), (("opt", "non_strict"), None)]
+    for i, (a, b) in enumerate(shapes):
+        p1 = pos("p1", a[0], a[1]); p1["hidden"] = True
+        items = [p1] + ([pos("p2", b[0], b[1])] if b else [])
+        if b and i % 2:
+            items[1]["hidden"] = (b[0] != "one")
+        named = [sw("o1", "-v")] if i % 2 else []
+        out.append(mkdef(f"hidpos{seed}_{i}", level(named, postail(*items)), maxlen=maxlen, extras=("dd",), spells=("sep",), words=("x", "1")))
+    return out
+
+
 def poslast_family(seed, maxlen=3):
     """`last` over a positional item: every word it can take is taken (a `non_strict` one stops at `--`), the value
     is the last one; what it cannot take is somebody else's or a failure"""
